@@ -65,9 +65,9 @@ ALPHABET = {
         "outside": [0, 4, 6.5],
     },
     "thorough": {
-        "supplies": [0, 3, 4.5, 1.5, 6],
+        "supplies": [0, 3, 4.5, 1.5],
         "writes": _both([-1, 0, 1, 2, 3, 4, 5, 6, 7, 8, 9, 10]) + [2.5, 7.25, 4.5, 5.75],
-        "outside": [0, 4, 6.5, 2.5, 8],
+        "outside": [0, 4, 6.5, 2.5],
     },
 }
 
